@@ -252,6 +252,8 @@ class Sh:
     def text_case(self, text, route, label, trusted=False):
         """text: bytes"""
         big = bool(re.search(rb"\d{7,}|[eE]\d{2,}|0[xX][0-9a-fA-F]{6,}", text)) or text.count(b"(") > 150 or text.count(b"begin") > 100
+        # a magnitude above 2^20 can also be *computed* from small literals (10345 ** 3, 1 << 40, 4000 * 4000)
+        if not big and re.search(rb"\*\*|<<|\bpow\b|\bpower\b|\d{3,}\s*\*\s*\d{3,}", text) and re.search(rb"\d{2,}", text): big = True
         if route == "cpp": ops = ["new A 0", "parse A P %s" % hx(text), "run A P 20000"]
         elif route == "capi": ops = ["new A 0", "cparse A P %s" % hx(text), "crun A P 20000"]
         elif route == "frag": ops = ["new A 0", "parsef A P %s fixed:%d" % (hx(text), self.rnd.choice([1, 2, 3, 7, 64, 1000])), "run A P 20000"]
